@@ -9,6 +9,7 @@ import Driver.WsseD
 import Driver.LexD
 import Driver.UnwrapD
 import Driver.FrameD
+import Driver.MultiRefD
 /-! Line-protocol driver: one JSON object per stdin line, one per stdout line. -/
 open Lean Driver
 
@@ -31,6 +32,9 @@ def dispatch (j : Json) : R Json := do
   | "lex.dec" => lexDec j
   | "soap.unwrap" => soapUnwrap j
   | "soap.frame" => soapFrame j
+  | "multiref" => multirefRun j
+  | "xop" => xopRun j
+  | "attachment" => attachmentRun j
   | _ => throw s!"unknown op {op}"
 
 def handleLine (line : String) : String :=
